@@ -225,6 +225,18 @@ func childMain(args []string) int {
 		return 2
 	}
 	out := ChildOut{}
+	pkgPath := in.ModPath
+	if in.Dir != "" {
+		pkgPath += "/" + in.Dir
+	}
+	out.PkgPath = pkgPath
+	gens := make([]*scripted, len(in.Gens))
+	names := make([]string, len(in.Gens))
+	for i := range in.Gens {
+		gens[i] = &scripted{script: &in.Gens[i], recs: map[string]*recorder{}}
+		names[i] = in.Gens[i].Name
+		gengo.Register(gens[i])
+	}
 	func() {
 		defer func() {
 			if r := recover(); r != nil {
@@ -238,13 +250,6 @@ func childMain(args []string) int {
 		// gengo prints diagnostics of unparseable output on stdout; keep them out of the way
 		if null, err := os.OpenFile(os.DevNull, os.O_WRONLY, 0); err == nil {
 			os.Stdout = null
-		}
-		gens := make([]*scripted, len(in.Gens))
-		names := make([]string, len(in.Gens))
-		for i := range in.Gens {
-			gens[i] = &scripted{script: &in.Gens[i], recs: map[string]*recorder{}}
-			names[i] = in.Gens[i].Name
-			gengo.Register(gens[i])
 		}
 		entry := "./" + in.Dir
 		if in.Dir == "" {
@@ -270,11 +275,9 @@ func childMain(args []string) int {
 				out.ErrKind = "other"
 			}
 		}
-		pkgPath := in.ModPath
-		if in.Dir != "" {
-			pkgPath += "/" + in.Dir
-		}
-		out.PkgPath = pkgPath
+	}()
+	if out.LoadErr == "" {
+		// what is on disk and what the shadow writers saw — also after a panic
 		dir := filepath.Join(root, filepath.FromSlash(in.Dir))
 		seen := map[string]bool{"src.go": true}
 		for i, g := range gens {
@@ -301,11 +304,75 @@ func childMain(args []string) int {
 			}
 			sort.Strings(out.Others)
 		}
-	}()
+	}
 	b, _ := json.Marshal(out)
 	if err := os.WriteFile(filepath.Join(work, "out.json"), b, 0o644); err != nil {
 		fmt.Fprintln(os.Stderr, err)
 		return 2
+	}
+	return 0
+}
+
+// c01-witness: prints, for a one-generator input whose script is made of blocks, the reference formatter's
+// behaviour on the assembled source as Coq definitions (used to regenerate the recorded witnesses in
+// coq/theories/Proofs/GenFileWitness.v).  Usage: vh c01-witness <prefix> <input.json>
+func init() { core.Children["c01-witness"] = witnessMain }
+
+func witnessMain(args []string) int {
+	if len(args) != 2 {
+		fmt.Fprintln(os.Stderr, "usage: vh c01-witness <prefix> <input.json>")
+		return 2
+	}
+	data, err := os.ReadFile(args[1])
+	if err != nil {
+		fmt.Fprintln(os.Stderr, err)
+		return 2
+	}
+	var rp struct {
+		Input Input `json:"input"`
+	}
+	if err := json.Unmarshal(data, &rp); err != nil || len(rp.Input.Gens) != 1 {
+		fmt.Fprintln(os.Stderr, "need a replay/corpus file with exactly one generator")
+		return 2
+	}
+	in := rp.Input
+	var body []byte
+	var blocks []string
+	for _, c := range in.Gens[0].Calls {
+		for _, s := range c {
+			if s.K != "block" {
+				fmt.Fprintln(os.Stderr, "only block snippets")
+				return 2
+			}
+			body = append(body, s.S...)
+			blocks = append(blocks, "SBlock "+core.Hex(string(s.S)))
+		}
+	}
+	pre := assembleRef(in.PkgName, in.Gens[0].Name, nil, body)
+	p := args[0]
+	fmt.Printf("(* input: module %s, go %s, package %s, generator %s; body %q *)\n", in.ModPath, in.GoVer, in.PkgName, in.Gens[0].Name, body)
+	fmt.Printf("Definition %s_snips : list snip := %s.\n", p, core.CoqList(blocks))
+	fmt.Printf("Definition %s_pre : bytes := %s.\n", p, core.Hex(string(pre)))
+	f1, ok := refFmt1(pre, &in)
+	if !ok {
+		fmt.Fprintln(os.Stderr, "does not parse")
+		return 2
+	}
+	fmt.Printf("(* parse + SortImports + gofumpt AST pass + print:\n%s*)\n", f1)
+	fmt.Printf("Definition %s_printed : bytes := %s.\n", p, core.Hex(string(f1)))
+	cur := f1
+	for i := 1; i < 8; i++ {
+		nx, ok := refFmt2(cur, &in)
+		if !ok {
+			return 2
+		}
+		if string(nx) == string(cur) {
+			fmt.Printf("(* %s_s%d is stable *)\n", p, i-1)
+			break
+		}
+		fmt.Printf("(* gofumpt Source, round %d:\n%s*)\n", i, nx)
+		fmt.Printf("Definition %s_s%d : bytes := %s.\n", p, i, core.Hex(string(nx)))
+		cur = nx
 	}
 	return 0
 }
